@@ -33,13 +33,13 @@ CHECKS["C02"] = dict(
         "with the model evaluated in Coq; direct oracle: resumed stream == uninterrupted remainder, following epochs included.",
    design="DESIGN.md 4 C02",
    note="Trusted: Coq kernel + vm_compute; concurrent operators enter this model through their sequential specification (C06/C04 concurrent model covers the threads); harness user code; "
-        "MultiNodeWeightedSampler is covered by C14's model, PinMemory is not exercised (no accelerator).",
+        "MultiNodeWeightedSampler is covered by C14's model; PinMemory's read thread runs in the interleaving-level lockstep of C04/C06 (device query stubbed, no accelerator).",
    technique="Coq proof over hand-written Gallina model + lockstep correspondence (vm_compute) + direct oracle")
 CHECKS["C04"] = dict(
    text="Same Gallina node model; theorems in Properties_C04.v relate running a node (reset, next until StopIteration, any number of epochs) to the list-function reference "
         "semantics sem (map f, chunking with drop_last, concat, filter, identity). Correspondence: three epochs of random pipelines compared with the model and with an independent "
         "Python list reference; concurrency runs (thread and process workers, in_order true/false, max_concurrent, prebatch, randomised per-item delays) checked against the list reference; "
-        "scheduler-driven runs of the real threads replayed step by step on the interleaving model ConcModel.v (in_order and unordered).",
+        "scheduler-driven runs of the real threads replayed step by step on the interleaving model ConcModel.v (Prefetcher, PinMemory's _pin_memory_loop as the same protocol with prefetch_factor 1, ParallelMapper in_order and unordered).",
    design="DESIGN.md 4 C04",
    note="Trusted: Coq kernel + vm_compute; deterministic thread scheduler (harness/sched_threads.py) for the interleaving-level cases, delay jitter for the process-worker cases; harness user code. Interleaving-level theorems (every schedule without a reader-join timeout, every reachable state): C04_prefetcher_is_identity and C04_parallel_mapper_is_ordered_map (ParallelMapper in_order, thread workers: delivered items = map_fn over the source prefix, in order, each once; index discipline C04_parallel_mapper_index_discipline). in_order=False and process workers are checked by correspondence+oracle only.",
    technique="Coq proof over hand-written Gallina model + lockstep correspondence (vm_compute) + direct oracle")
